@@ -582,6 +582,8 @@ class Lib:
         return j
 
     def getitem(self, interp, obj, idx, node):
+        if isinstance(idx, tuple) and len(idx) == 0 and isinstance(obj, SCALAR):
+            return obj      # numpy scalar[()] is the scalar itself
         if isinstance(obj, SSeq):
             if isinstance(idx, (int, SInt)):
                 j = self.norm_index(interp, obj.length, idx, node)
